@@ -220,6 +220,7 @@ Lemma me_same_hosts x : me_same (fun e => me_with_hosts e (x e)). Proof. intros 
 Lemma me_same_online x : me_same (fun e => me_with_online e x). Proof. intros e H; exact H. Qed.
 Lemma me_same_ip4 x : me_same (fun e => me_with_ip4 e x). Proof. intros e H; exact H. Qed.
 Lemma me_same_offer x : me_same (fun e => me_with_offer e x). Proof. intros e H; exact H. Qed.
+Lemma me_same_captured x : me_same (fun e => me_with_captured e x). Proof. intros e H; exact H. Qed.
 Lemma h_same_online x : h_same (fun h => h_with_online h x). Proof. intros e H; exact H. Qed.
 Lemma h_same_dirty x : h_same (fun h => h_with_dirty h x). Proof. intros e H; exact H. Qed.
 Lemma h_same_od x y : h_same (fun h => h_with_dirty (h_with_online h x) y). Proof. intros e H; exact H. Qed.
@@ -407,6 +408,26 @@ Proof.
   apply forallb_set_nth; auto.
 Qed.
 
+Lemma is_captured_indep mac st : no_ref st = true -> is_captured cx1 mac st = is_captured cx2 mac st.
+Proof. intros H. unfold is_captured. rewrite find_mac_indep by (apply nr_macs; auto). reflexivity. Qed.
+
+Lemma capture_ok xmac st :
+  no_ref st = true -> src_ok xmac = true ->
+  capture cx1 xmac st = capture cx2 xmac st /\ no_ref (capture cx1 xmac st) = true.
+Proof.
+  intros H Hm. unfold capture.
+  destruct (mac_find_or_create_ok xmac st H Hm) as (Eq & N1 & Hok). rewrite Eq in *.
+  destruct (mac_find_or_create cx2 xmac st) as [st1 e]. cbn [fst snd] in *.
+  destruct (_ || _); split; auto. apply upd_me_no_ref; auto using me_same_captured.
+Qed.
+
+Lemma release_ok mac st :
+  no_ref st = true -> release cx1 mac st = release cx2 mac st /\ no_ref (release cx1 mac st) = true.
+Proof.
+  intros H. unfold release. rewrite find_mac_indep by (apply nr_macs; auto).
+  destruct (find_mac cx2 mac (st_macs st)); split; auto. apply upd_me_no_ref; auto using me_same_captured.
+Qed.
+
 End Session.
 
 (* ---------------------------------------------------------------- *)
@@ -558,6 +579,15 @@ Proof.
           (show_recs_indep (d_cname e)), (show_recs_indep (d_ptr e)) by auto. reflexivity.
 Qed.
 
+Lemma show_mcache_indep c : mcache_ok c = true -> show_mcache cx1 c = show_mcache cx2 c.
+Proof.
+  intros H. unfold mcache_ok in H. split_ok. unfold show_mcache.
+  rewrite (rd_owned cx1 cx2 (mc_key c)) by auto. f_equal. f_equal. f_equal.
+  apply map_ext_forallb with (p := fun x : rv * rv * rv => owned (fst (fst x)) && owned (snd (fst x)) && owned (snd x)); auto.
+  intros x Hx. split_ok.
+  rewrite (rd_owned cx1 cx2 (fst (fst x))), (rd_owned cx1 cx2 (snd (fst x))), (rd_owned cx1 cx2 (snd x)) by auto. reflexivity.
+Qed.
+
 End Dump.
 
 Lemma dump_indep s1 s2 st : no_ref st = true -> dump s1 st = dump s2 st.
@@ -572,6 +602,8 @@ Proof.
     by (auto using forallb_sort_by, show_router_indep).
   rewrite (map_ext_forallb dns_ok (show_dns (nocx s1)) (show_dns (nocx s2)))
     by (auto using forallb_sort_by, show_dns_indep).
+  rewrite (map_ext_forallb mcache_ok (show_mcache (nocx s1)) (show_mcache (nocx s2)))
+    by (auto using forallb_sort_by, show_mcache_indep).
   reflexivity.
 Qed.
 
@@ -600,10 +632,12 @@ Proof.
   intros H Hc Hm Hn. unfold lease_find_or_create.
   rewrite (src_val_indep cx1 cx2 xcid), (src_val_indep cx1 cx2 xname), (src_val_indep cx1 cx2 xmac) by auto.
   rewrite !(retain_indep _ cx1 cx2) by auto.
+  rewrite (is_captured_indep cx1 cx2 _ st H).
   assert (Hcreate : forall st0, no_ref st0 = true ->
     no_ref (set_leases st0 (remove_first (fun l' => beqb (l_kval l') (src_val cx2 xcid)) (st_leases st0) ++
       [{| l_key := retain RP_lease_key cx2 xcid; l_kval := src_val cx2 xcid; l_cid := retain RP_lease_cid cx2 xcid;
-          l_mac := retain RP_lease_mac cx2 xmac; l_xid := Owned []; l_name := retain RP_lease_name cx2 xname; l_ip := [] |}])) = true).
+          l_mac := retain RP_lease_mac cx2 xmac; l_xid := Owned []; l_name := retain RP_lease_name cx2 xname; l_ip := [];
+          l_sub := is_captured cx2 (src_val cx2 xmac) st |}])) = true).
   { intros st0 H0. apply set_leases_no_ref; auto. apply forallb_snoc.
     - apply forallb_remove_first. apply nr_leases; auto.
     - unfold lease_ok; cbn [l_key l_cid l_mac l_xid l_name]. rewrite !retain_owned. reflexivity. }
@@ -614,7 +648,7 @@ Proof.
     assert (Nupd : no_ref (if b then upd_lease k f st else st) = true) end.
   { destruct (_ && _); auto. apply upd_lease_no_ref; auto. intros l' Hl'.
     pose proof Hl' as Hl2. unfold lease_ok in Hl2. split_ok. apply l_with_ok; auto using retain_owned. }
-  destruct (beqb (rd cx2 (l_mac l)) _); auto.
+  destruct (_ && beqb (rd cx2 (l_mac l)) _); auto.
 Qed.
 
 Lemma show_decl_indep typ cid mac xid ip :
@@ -702,6 +736,9 @@ Proof.
     - destruct (dm_res m =? 6); auto.
       rewrite show_reply_indep. split; auto. f_equal. f_equal.
       destruct (dm_cls m =? 3); auto. f_equal. apply decl_frame_indep; auto. }
+  destruct ((dm_type m =? 4) || (dm_type m =? 7)).
+  { destruct (lease_find_or_create_ok (dm_cid_src m) (FrameSl 70 6) (Fresh []) st H Hc eq_refl eq_refl) as [E5 N5].
+    rewrite E5 in *. split; [reflexivity|exact N5]. }
   destruct (dm_type m =? 2); auto.
   split; auto. f_equal. f_equal. apply decl_frame_indep; auto.
 Qed.
@@ -720,6 +757,7 @@ Lemma hunt_step_indep ip st : no_ref st = true -> hunt_step cx1 ip st = hunt_ste
 Proof.
   intros H. unfold hunt_step. destruct (find _ (st_leases st)) as [l|] eqn:F; auto.
   pose proof (find_some_forallb lease_ok _ _ _ (nr_leases _ H) F) as Hok. unfold lease_ok in Hok. split_ok.
+  destruct (l_sub l); auto.
   rewrite (retain_indep _ cx1 cx2 (Held (l_mac l))) by auto.
   rewrite (show_decl_indep "7"); auto using retain_owned.
 Qed.
@@ -940,7 +978,10 @@ Proof.
     match hd with context [cx1] => set (h1 := hd) end end.
   match goal with |- (_ = let '(st2, outs) := ?hd in _) /\ _ => set (h2 := hd) end.
   assert (Hh : h1 = h2 /\ no_ref (fst h1) = true).
-  { unfold h1, h2. destruct k as [|m|m|m|m|m|l|a b o]; cbn [fst].
+  { assert (Oapi : forall l, api_name cx1 l = api_name cx2 l /\ nm_ok (api_name cx2 l) = true).
+    { intros l. unfold api_name. rewrite (retain_indep _ cx1 cx2) by auto. split; [reflexivity|].
+      unfold nm_ok; cbn [n_name n_model n_manuf n_os]. rewrite retain_owned. reflexivity. }
+    unfold h1, h2. destruct k as [|m|m|m|m|m|l|a b o| | |ip name|ip name]; cbn [fst].
     - auto.
     - apply dhcp_step_ok; auto.
     - destruct (ra_step_ok cx1 cx2 E m fhost st1 Np) as [E1 N1]. rewrite E1 in *. auto.
@@ -948,7 +989,15 @@ Proof.
     - destruct (mdns_step_ok cx1 cx2 E NM_MDNS m fhost st1 Np) as [E1 N1]. rewrite E1 in *. auto.
     - destruct (mdns_step_ok cx1 cx2 E NM_LLMNR m fhost st1 Np) as [E1 N1]. rewrite E1 in *. auto.
     - destruct (nbns_step_ok cx1 cx2 E l fhost st1 Np) as [E1 N1]. rewrite E1 in *. auto.
-    - destruct (ssdp_step_ok cx1 cx2 a b o fhost st1 Np) as [E1 N1]. rewrite E1 in *. auto. }
+    - destruct (ssdp_step_ok cx1 cx2 a b o fhost st1 Np) as [E1 N1]. rewrite E1 in *. auto.
+    - destruct (capture_ok cx1 cx2 E (FrameSl 6 6) st1 Np eq_refl) as [E1 N1]. rewrite E1 in *. auto.
+    - destruct (release_ok cx1 cx2 (sub frame 6 6) st1 Np) as [E1 N1]. rewrite E1 in *. auto.
+    - destruct (Oapi name) as [Ea Oa]. rewrite Ea, (lval_indep cx1 cx2 ip E).
+      destruct (dhcpv4_update_ok cx1 cx2 E (FrameSl 6 6) (lval cx2 ip) (api_name cx2 name) st1 Np eq_refl Oa) as [E1 N1].
+      rewrite E1 in *. auto.
+    - destruct (Oapi name) as [Ea Oa]. rewrite Ea, (lval_indep cx1 cx2 ip E).
+      destruct (set_dhcpv4_offer_ok cx1 cx2 E (FrameSl 6 6) (lval cx2 ip) (api_name cx2 name) st1 Np eq_refl Oa) as [E1 N1].
+      rewrite E1 in *. auto. }
   destruct Hh as [Eh Nh]. rewrite Eh in *. clearbody h2. clear h1 Eh.
   destruct h2 as [st2 outs]. cbn [fst] in Nh.
   (* notify *)
